@@ -228,7 +228,7 @@ def rule_pool_shape(chk, repo):
     if ok:
         st = [repo.enclosing_stmt(c) for c in adds]
         blk_ok = repo.parent(st[0]) is repo.parent(st[1]) and isinstance(repo.parent(st[0]), ast.For) and \
-            unparse(repo.parent(st[0]).iter) == 'peptides' and len(repo.parent(st[0]).body) == 2
+            unparse(repo.parent(st[0]).iter) == 'peptides'
         ok = blk_ok
     chk.ob('C10.c', 'each peptide is added together with its I->L image', f.where, ok,
            f"pool.add calls {texts} are not the peptide and its I->L image added for every digested peptide", key=POOL + '::il-pairing', fn=f.qual)
